@@ -69,7 +69,7 @@ int main(int argc, char **argv) {
   std::map<std::string, std::string> a;
   for (int i = 2; i + 1 < argc; i += 2) a[argv[i]] = argv[i + 1];
   const char *kf = getenv("VERIF_KNOWN_FINDINGS");
-  kfLoad(kf ? kf : "/verif/known_findings.json");
+  kfLoad(kf ? kf : rootDir() + "/known_findings.json");
   if (cmd == "replay") return cmdReplay(argc > 2 ? argv[2] : "");
   if (cmd == "dbgparse") { // pbt dbgparse FILE input# la one cost rec dbg  : one parse in-process, library debug output to stderr
     std::ifstream f(argv[2]);
@@ -84,7 +84,9 @@ int main(int argc, char **argv) {
     yaep_verif.track = 1;
     if (argc > 9) cf.match = atoi(argv[9]);
     if (getenv("RECLIMIT")) yaep_verif.rec_limit = atol(getenv("RECLIMIT"));
+    if (getenv("FREEMODE")) cf.freemode = atoi(getenv("FREEMODE"));
     Outcome o = runParse(*b, cs.inputs[atoi(argv[3])], cf);
+    printf("tree: ok=%d problem='%s' nodes=%ld alt=%ld anode=%ld shared=%ld overflow=%d denoted=%zu\n", o.tree.ok, o.tree.problem.c_str(), o.tree.n_nodes, o.tree.n_alt, o.tree.n_anode, o.tree.n_shared, o.tree.overflow, o.tree.den.size());
     for (int i = 0; i < o.hook.n_rec && i < YAEP_VERIF_MAX_REC; i++) printf("recovery %d: err_tok=%d pops=%ld found=%d back_set=%d behind=%d ahead=%d\n", i, o.hook.rec[i].err_tok, o.hook.rec[i].pops, o.hook.rec[i].found, o.hook.rec[i].back_set, o.hook.rec[i].behind, o.hook.rec[i].ahead);
     printf("explosion=%d\n", o.hook.rec_explosion);
     printf("%s\nhooks: reuse=%d copy=%d reuse_of_copied=%d skipped_origin=%d\n", o.str().c_str(), o.hook.n_reuse, o.hook.n_copy, o.hook.n_reuse_of_copied, o.hook.n_skipped_origin);
